@@ -21,8 +21,12 @@ SmallInts == {IntTok("0",0), IntTok("1",1), IntTok("2",2), IntTok("3",3), IntTok
               IntTok("10",10)}
 BadToks == {BadTok("-1"), BadTok("abc"), BadTok("1.5"), BadTok(" 1"), BadTok("1 "),
             BadTok("0x1"), BadTok("1e1"), BadTok("99999999999999999999")}
-IppToks  == SmallInts \cup {IntTok("100",100), IntTok("2147483647",2147483647), EmptyTok} \cup BadToks
-PageToks == SmallInts \cup {IntTok("100",100), IntTok("46340", 46340), EmptyTok} \cup BadToks
+\* large values whose PRODUCT page * itemsPerPage passes 2^31, 2^32 or 2^63 (in 32- or 64-bit arithmetic it would wrap
+\* to a small number: 65536 * 65536 = 2^32, 1073741824 * 4 = 2^32, 3 * 1431655766 = 2^32 + 2, 2147483647^2)
+BigToks == {IntTok("65536",65536), IntTok("1073741824",1073741824), IntTok("1431655766",1431655766),
+            IntTok("2147483647",2147483647), IntTok("2147483646",2147483646), IntTok("46341",46341)}
+IppToks  == SmallInts \cup {IntTok("100",100), EmptyTok} \cup BigToks \cup BadToks
+PageToks == SmallInts \cup {IntTok("100",100), IntTok("46340", 46340), EmptyTok} \cup BigToks \cup BadToks
 
 Default(tok, d) == IF tok.kind = "empty" THEN d ELSE tok.v
 
@@ -40,7 +44,7 @@ PaginateImpl(n, ippTok, pageTok) ==
         ELSE [err |-> FALSE,
               pc  |-> (n \div ipp) + (IF n % ipp # 0 THEN 1 ELSE 0),
               lo  |-> MulClip(p, ipp, n),
-              hi  |-> MulClip(p + 1, ipp, n)]
+              hi  |-> IF p >= n THEN n ELSE MulClip(p + 1, ipp, n)]     \* (p+1)*ipp >= n when p >= n; avoids p+1 overflowing
 
 \* -------- layer 2: the statement, over an observed table  page number -> items (sequence)
 \* pages[k+1] is page k, for k = 0..Len(pages)-1; items are the list positions 1..n
